@@ -720,6 +720,15 @@ cannot convert calendric system internally");
 		}
 		rc = 1;
 		goto out;
+	} else if (dt_sandwich_only_d_p(clo.fst) &&
+		   __daisy_feasible_p(clo.ite, clo.nite) &&
+		   clo.fst.d.typ == DT_BIZDA && clo.lst.d.typ == DT_BIZDA) {
+		/* Saturdays and Sundays have no name as business day of
+		 * the month, adding days gets stuck on the Friday before:
+		 * step through day counts and leave the weekends out */
+		clo.fst = dt_dtconv(_DAISY, clo.fst);
+		clo.lst = dt_dtconv(_DAISY, clo.lst);
+		clo.ss |= SKIP_SAT | SKIP_SUN;
 	} else if (dt_sandwich_only_t_p(clo.fst) && argi->nargs < 3U) {
 		*clo.ite = tseq_guess_ite(clo.fst.t, clo.lst.t);
 	}
